@@ -317,4 +317,13 @@ def run_case(scn, ctx):
                     m = _re.search(r"  (\w+) \(old\): (\S+), (\w+) \(new\): (\S+)$", l)
                     require(m is not None and m.group(2) == ref[m.group(1)] and m.group(4) == refhash.digest(m.group(1), bytes(mutated)), "create_prints",
                             "create prints %r; recorded %s, the altered bytes hash to %s" % (l[-120:], ref.get(m.group(1)) if m else None, refhash.digest(m.group(1), bytes(mutated)) if m else None), res)
+                # the failed generation must not leak into later ones: restore the bytes, seal in every format on record
+                w.put(rel, data)
+                res = w.create("R", formats=[f for f in sorted(ref) if f in CLI])
+                require(res.exit_code == 0 and res.exc is None, "create_exit", "after restoring the original bytes: " + res.brief(), res)
+                recs = [x for x in w.read_history("R")[-1][2]["records"] if x["kind"] == "file" and x["path"] == scn["name"]]
+                for e in recs[0]["entries"] if recs else []:
+                    require(e["digest"] == refhash.digest(e["fmt"], data) and e["action"] == "verified", "create_digest_after_restore",
+                            "%s: recorded %s (%s) after the restore, the bytes hash to %s" % (e["fmt"], e["digest"], e["action"], refhash.digest(e["fmt"], data)), res)
+                ctx.event("restored_after_failed_generation")
         return w.trace
